@@ -27,12 +27,13 @@ type C09Case struct {
 	WriteFails bool      `json:"write_fails"` // write side fails together with the read side
 	Window     string    `json:"window"`      // "" | unary | stream : a call parked between the failure check and its registration
 	Ser        bool      `json:"ser"`
+	ErrKind    string    `json:"err_kind,omitempty"` // which error value the failing transport returns (kit.FaultErrKinds)
 }
 
 type c09WindowKey struct{}
 
 func genC09(t *rapid.T) C09Case {
-	c := C09Case{Ser: rapid.Bool().Draw(t, "ser"), WriteFails: rapid.Bool().Draw(t, "write_fails")}
+	c := C09Case{Ser: rapid.Bool().Draw(t, "ser"), WriteFails: rapid.Bool().Draw(t, "write_fails"), ErrKind: rapid.SampledFrom(kit.FaultErrKinds).Draw(t, "err_kind")}
 	n := rapid.IntRange(1, 5).Draw(t, "ncalls")
 	for i := 0; i < n; i++ {
 		call := C09Call{Kind: rapid.SampledFrom(allKinds).Draw(t, "kind")}
@@ -104,6 +105,7 @@ func runC09(t *testing.T, c C09Case, pos int) *c09Run {
 		windowRelease = make(chan struct{})
 		tp := kit.NewTap()
 		l := kit.NewLink("c0", tp, c.Ser)
+		l.A.SetFaultErr(kit.FaultErr(c.ErrKind))
 		goat.VerifSetHook(func(ctx context.Context, name string) {
 			if name != "mux.unary.beforeRegister" && name != "mux.stream.beforeRegister" {
 				return
@@ -344,7 +346,7 @@ func execC09(t *testing.T, c C09Case) (v Verdict) {
 			failRun, failPos = base, L+1
 		}
 	}
-	labels := []string{fmt.Sprintf("write_fails=%v", c.WriteFails), "window=" + c.Window, fmt.Sprintf("calls=%d", len(c.Calls))}
+	labels := []string{fmt.Sprintf("write_fails=%v", c.WriteFails), "window=" + c.Window, fmt.Sprintf("calls=%d", len(c.Calls)), "read_error=" + c.ErrKind}
 	for _, call := range c.Calls {
 		labels = append(labels, "kind="+kit.KindNames[call.Kind])
 	}
@@ -364,14 +366,15 @@ func TestC09(t *testing.T) { checkProp(t, "C09", "main", genC09, execC09) }
 // ---- C09 storm: calls starting at the very moment the read loop fails (no hook) --------------
 
 type C09Storm struct {
-	Callers    int  `json:"callers"`
-	Streams    bool `json:"streams"`
-	WriteFails bool `json:"write_fails"`
-	Ser        bool `json:"ser"`
+	Callers    int    `json:"callers"`
+	Streams    bool   `json:"streams"`
+	WriteFails bool   `json:"write_fails"`
+	Ser        bool   `json:"ser"`
+	ErrKind    string `json:"err_kind,omitempty"`
 }
 
 func genC09Storm(t *rapid.T) C09Storm {
-	return C09Storm{Callers: rapid.SampledFrom([]int{8, 16, 32, 64}).Draw(t, "callers"), Streams: rapid.Bool().Draw(t, "streams"), WriteFails: rapid.IntRange(0, 3).Draw(t, "wf") == 0, Ser: rapid.Bool().Draw(t, "ser")}
+	return C09Storm{Callers: rapid.SampledFrom([]int{8, 16, 32, 64}).Draw(t, "callers"), Streams: rapid.Bool().Draw(t, "streams"), WriteFails: rapid.IntRange(0, 3).Draw(t, "wf") == 0, Ser: rapid.Bool().Draw(t, "ser"), ErrKind: rapid.SampledFrom(kit.FaultErrKinds).Draw(t, "err_kind")}
 }
 
 func execC09Storm(t *testing.T, c C09Storm) (v Verdict) {
@@ -380,6 +383,7 @@ func execC09Storm(t *testing.T, c C09Storm) (v Verdict) {
 	res := kit.Bubble(t, func() {
 		tp := kit.NewTap()
 		l := kit.NewLink("c0", tp, c.Ser)
+		l.A.SetFaultErr(kit.FaultErr(c.ErrKind))
 		cc := goat.NewClientConn(l.A, "c0", kit.ServerName)
 		bg := context.Background()
 		start := make(chan struct{})
